@@ -19,13 +19,15 @@ import (
 	"sync"
 
 	"github.com/openGemini/openGemini/lib/logger"
-	"github.com/openGemini/openGemini/lib/numberenc"
 	"github.com/openGemini/openGemini/lib/record"
 	"github.com/openGemini/openGemini/lib/util/lifted/vm/protoparser/influx"
 	"go.uber.org/zap"
 )
 
 var firstLastReaderPool sync.Pool
+
+// lastRowOfSegment asks readAuxData for the last row of the segment it decodes.
+const lastRowOfSegment = -1
 
 func readFirstOrLast(cm *ChunkMeta, ref *record.Field, dst *record.Record, ctx *ReadContext, cr ColumnReader, copied, first bool, ioPriority int) error {
 	reader, ok := firstLastReaderPool.Get().(*FirstLastReader)
@@ -116,7 +118,9 @@ func (r *FirstLastReader) Read(ctx *ReadContext, copied bool, ioPriority int) er
 		if ok {
 			rowIndex := 0
 			if !r.first {
-				rowIndex = int(numberenc.UnmarshalUint32(r.cm.timeMeta().preAgg)) - 1
+				// the last row of THIS segment (readAuxData resolves it once the segment's column is decoded); the chunk's
+				// row count is only right for a chunk of one segment
+				rowIndex = lastRowOfSegment
 			}
 			err = r.after(val, tm, rowIndex, ctx, copied, ioPriority)
 			break
@@ -182,7 +186,7 @@ func (r *FirstLastReader) ReadTime(ctx *ReadContext, copied bool, ioPriority int
 			// query time range:        --------------
 			// segment time range: ---------------
 			// If there is no null value, the last row of data is the result
-			val, tm, rowIndex = maxTime, maxTime, int(numberenc.UnmarshalUint32(r.cm.timeMeta().preAgg))-1
+			val, tm, rowIndex = maxTime, maxTime, lastRowOfSegment
 		} else {
 			if err := r.readTimeColVal(ctx, &tmMeta.entries[r.segIndex], copied, ioPriority); err != nil {
 				return err
